@@ -203,8 +203,35 @@ def method_name(rng, safe_only=False):
 
 
 def variant_ident(name):
-    """UpperCamel of a C01-domain snake name."""
+    """UpperCamel of a snake name: words are the non-empty pieces between underscores."""
     return "".join(w[:1].upper() + w[1:] for w in name.split("_") if w != "")
+
+
+def wire_name(name):
+    """The name a variant serialises under: serde's snake_case of the UpperCamel variant identifier.
+    Equals `name` for names of the C01 domain; for extended names (leading / doubled / trailing underscores,
+    all-digit words) it is what the two casing steps leave (`step_1` -> `Step1` -> `step1`)."""
+    v = variant_ident(name)
+    out = []
+    for i, ch in enumerate(v):
+        if i > 0 and ch.isupper():
+            out.append("_")
+        out.append(ch.lower())
+    return "".join(out)
+
+
+def extended_name(rng):
+    """A method name outside the C01 domain (still a valid Rust identifier)."""
+    words = [rng.choice(WORDS_SAFE + WORDS_DIGIT + WORDS_SINGLE) for _ in range(rng.choice([1, 2, 2, 3]))]
+    c = rng.random()
+    if c < 0.3:
+        return "_" + "_".join(words)
+    if c < 0.55:
+        return "__".join(words) if len(words) > 1 else words[0] + "_"
+    if c < 0.85:
+        words.insert(rng.randrange(1, len(words) + 1), str(rng.choice([0, 1, 2, 7, 10, 42])))
+        return "_".join(words)
+    return "_".join(words) + "_"
 
 
 ARG_WORDS = ["amount", "to", "from", "owner", "id", "a", "b", "x", "y", "value", "key", "flag", "n",
